@@ -121,7 +121,18 @@ pub struct Violation {
 
 impl Violation {
     pub fn new(class: &str, key: impl Into<String>, detail: impl Into<String>) -> Violation {
-        Violation { class: class.to_string(), key: key.into(), detail: detail.into(), narrowed: None }
+        // details quote values; keep them readable when a value is a megabyte of bytes
+        let mut detail: String = detail.into();
+        if detail.len() > 1500 {
+            let mut cut = 1400;
+            while !detail.is_char_boundary(cut) {
+                cut -= 1;
+            }
+            let total = detail.len();
+            detail.truncate(cut);
+            detail.push_str(&format!(" ... [{} more characters]", total - cut));
+        }
+        Violation { class: class.to_string(), key: key.into(), detail, narrowed: None }
     }
 }
 
